@@ -9,6 +9,7 @@ observable and checked against generic invariants.
 """
 from .. import flowcheck
 from .. import floworacle as fo
+from .. import floworacle_r3 as f3
 from . import c11_heap
 
 LEAN_MODULES = ['Props.C11', 'Props.Agreement']
@@ -19,19 +20,22 @@ TRUSTED = ['harness/flow_impl.py (yaml renderer, canonicaliser, virtual clock, s
            'CPython, ruamel.yaml (modelled, not verified)']
 ASSUMPTIONS = ['formatting inside decorators is restricted to the simple {key} grammar of PypyrModel/Fmt.lean',
                'context keys are strings; dict keys never mix bool/int/float',
-               'log output, real time and BaseException other than Exception subclasses are outside the observables']
+               'log output (not the log LEVEL: that is a generated input), real time and BaseException other than Exception subclasses are outside the observables']
 
 
 def run(env, res):
     res.rule = ('directed families (expectation from the property text) first, then seeded random pipelines '
                 '(1-3 pipelines, 1-4 groups, 0-4 steps per group, decorators with p~0.25 each, foreach items incl. '
                 'None/0/\'\'/False/[]/{}, 12% with a malformed group body or sequence item, 35% written in another '
-                'yaml layout: flow style, JSON, first step on line 1, other indentation); a case is '
+                'yaml layout: flow style, JSON, first step on line 1, other indentation, single-quoted / plain / block scalars, anchors + aliases, merge keys; every 4th case runs with the root logger at DEBUG, every 8th at INFO, every 8th at NOTIFY - the log level is an input); a case is '
                 'non-trivial when the model accepts it and it terminates; distinct by canonical program text')
     directed = [('c11', fo.c11_family, env.n(108, 100000)), ('c11-self', fo.c11_self_family, env.n(60, 100000)),
                 ('c01-names', fo.c01_names_family, env.n(60, 100000)),
                 ('c02-parser-handler', fo.c02_parser_handler_family, env.n(18, 100000)),
-                ('c11-out-container', fo.c11_out_container_family, env.n(36, 100000))]
+                ('c11-out-container', fo.c11_out_container_family, env.n(36, 100000)),
+                ('c11-args-defaults', f3.c11_args_defaults_family, env.n(60, 100000)),
+                ('c11-out-reuse', f3.c11_out_reuse_family, env.n(28, 100000)),
+                ('c11-nested-shared-pype', f3.c11_nested_shared_pype_family, env.n(1, 100000))]
     flowcheck.run_streams(env, res, directed, env.n(500, 100000), weights={'pype': 6, 'fail': 3, 'stop': 1, 'stoppipeline': 1.5},
                           random_monitor=flowcheck.monitor_all)
     # object-level stream: what the child can reach of the parent (heap model, Props/C11Heap.lean)
